@@ -138,6 +138,10 @@ def parse_unittest_argv(tokens):
         elif t.startswith('-') and len(t) > 1:
             # a cluster of single-letter options: W, 1, 0 are tdda's
             for ch in t[1:]:
+                if ch == 'k':
+                    # unittest's -k takes a value; the rest of the argument
+                    # is that value (a test-name pattern), not options
+                    break
                 if ch == 'W':
                     m.all = True
                     once('all')
